@@ -152,6 +152,11 @@ func (h *httpContext) InspectServerBlocks(sourceFile string, serverBlocks []cask
 			if addrCopy.Port == "" && Port == DefaultPort {
 				addrCopy.Port = Port
 			}
+			if addrCopy.Path == "/" {
+				// "host" and "host/" name the same site: requests are
+				// matched against the path "/" for both
+				addrCopy.Path = ""
+			}
 			addrStr := addrCopy.String()
 			if otherSiteKey, dup := siteAddrs[addrStr]; dup {
 				err := fmt.Errorf("duplicate site address: %s", addrStr)
